@@ -1,5 +1,5 @@
 SPECIFICATION Spec
-CONSTANTS MsgSrc <- S6  MsgMid <- M6  MsgTot <- T6  CapSrc = 2  CapAll = 3  MaxDeliv = 7  MaxTick = 3
+CONSTANTS MsgSrc <- S6  MsgMid <- M6  MsgTot <- T6  CapSrc = 2  CapAll = 3  MaxDeliv = 5  MaxTick = 3
   GridP <- GP  GridMM <- GM
   DecOnComplete = TRUE  DupCheck = TRUE  TotalCheck = TRUE  CapStrict = TRUE  GcOn = TRUE
 INVARIANT NoViolation
